@@ -9,6 +9,8 @@ from concurrent.futures import ThreadPoolExecutor
 import vf
 
 AREA = "C08"
+EXPECTED_THEOREMS = 19
+PROBE_INCONCLUSIVE = []
 P100 = 2 ** 100 + 277
 # (field key of the harness, characteristic)
 FIELDS_SMALLTHR = [("mi32", 2), ("mi32", 3), ("mi32", 7), ("mi32", 65521), ("mi64", 2147483647), ("md", 5), ("md", 67108859),
@@ -108,8 +110,12 @@ RANGE_FORMS = {
     "r.subin3": "subin_range", "r.subin2": "subin_grow", "r.subin1": "subin_at",
     "r.midmul": "midmul_r", "r.stdmidmul": "midmul_r", "r.karamidmul": "midmul_r",
 }
+# the two anchor files that no Poly1Dom operation reaches (phase 4): Poly1PadicDom::eval / radix (givpoly1padic.h) over the Modular
+# domains with canonical non-negative residues, NewtonInterpGeom (givinterpgeom.h) over GFqDom (it needs a generator); oracle only
+ANCHOR_FORMS = {"padic.eval": "padic_eval", "padic.eval.u64": "padic_eval", "padic.radix": "padic_radix", "interpgeom": "interpgeom"}
 for _v, (_b, _o, _c) in ALIAS_FORMS.items():
     VARIANTS[_v] = _o
+VARIANTS.update(ANCHOR_FORMS)
 VARIANTS.update(NEW_FORMS)
 VARIANTS.update(RANGE_FORMS)
 # call forms that exist only when the corresponding template member instantiates (see compile probes)
@@ -143,10 +149,11 @@ SIG = {
     # and b junk entries after every range inside its container
     "mul_r": "NPPNN", "stdmul_r": "NPPNN", "karamul_r": "NPPNN", "sqr_r": "PNN", "stdsqr_r": "PNN", "sqrrec_r": "PNN",
     "subin_range": "PPNN", "subin_grow": "PPNN", "subin_at": "PPNNN", "midmul_r": "PPNN",
+    "padic_eval": "P", "padic_radix": "NN", "interpgeom": "PN",
     "init_cst": "S", "init_list": "P", "isOne": "P", "isMOne": "P", "isUnit": "P", "newton_iter": "PPN", "crt_recip": "LN",
 }
 # operations without a Gallina model: judged by the specification oracle only (labelled in the evidence)
-NO_MODEL = {"init_cst", "init_list", "isOne", "isMOne", "isUnit", "newton_iter", "crt_recip"}
+NO_MODEL = {"padic_eval", "padic_radix", "interpgeom", "init_cst", "init_list", "isOne", "isMOne", "isUnit", "newton_iter", "crt_recip"}
 # (the middle product, shift, getEntry/setEntry/val, maxpy(scalar), mod by a scalar and the protected range helpers all have
 #  Gallina models and driver.ml entries since phase 3)
 
@@ -182,7 +189,7 @@ def source_powmod_e0red():
 # operations whose result is a RAW vector (range helpers: no normalisation promised) or a documented unnormalised form
 # (init(P, 0) = [0], init(P, {..}) keeps the list as given): value compared entry by entry, normal form not required
 RAW_RESULT = {"mul_r", "stdmul_r", "karamul_r", "sqr_r", "stdsqr_r", "sqrrec_r", "subin_range", "subin_grow", "subin_at", "midmul_r",
-              "init_cst", "init_list", "crt_recip"}
+              "init_cst", "init_list", "crt_recip", "interpgeom"}
 # Normal form of results: with operands in normal form EVERY polynomial result must carry no leading zero coefficient
 # (the property's last sentence).  STRICT_NORMAL lists the operations whose body always ended in setdegree / assign; the
 # others (add, sub, scalar forms, scalar products, diff, scalar fused forms) were repaired by fix-10 / fix-11 and report
@@ -541,6 +548,20 @@ def spec_check(op, p, args, out):
         P = norm(a[0])
         e = {"isOne": P == [1 % p], "isMOne": P == [(p - 1) % p], "isUnit": len(P) == 1}[op]
         return (int(out[0]) == int(e), str(int(e)), "value")
+    if op == "padic_eval":
+        e = sum(c * p ** i for i, c in enumerate(a[0]))
+        return (int(out[0]) == e, str(e), "value")
+    if op == "padic_radix":
+        E, digits = a[0], []
+        while E:
+            digits.append(E % p)
+            E //= p
+        return eq(digits)
+    if op == "interpgeom":
+        g, R, P, n = int(out[0]), norm(parse_poly(out[1])), a[0], a[1]
+        pts = [pow(g, i, p) for i in range(n + 1)]
+        ok = len(set(pts)) == n + 1 and len(R) <= n + 1 and all(peval(R, x, p) == peval(P, x, p) for x in pts)
+        return (ok, "g a generator, deg R <= %d, R(g^i) = P(g^i) for i = 0..%d" % (n, n), "value")
     if op == "newton_iter":
         G, A, i = a[0], a[1], a[2]
         t = conv_raw(A[:i], conv_raw(G, G, p), p)
@@ -561,7 +582,7 @@ def spec_check(op, p, args, out):
 
 
 POLY_RESULT_POS = {"divmod": [0, 1], "divmodin": [0, 1], "pdivmod": [0, 1], "pmod": [0], "gcdext": [0, 1, 2]}
-SCALAR_RESULT = {"degree", "leadcoef", "isZero", "areEqual", "eval", "isDivisor", "getEntry", "val", "crt_torns", "isOne", "isMOne", "isUnit"}
+SCALAR_RESULT = {"padic_eval", "degree", "leadcoef", "isZero", "areEqual", "eval", "isDivisor", "getEntry", "val", "crt_torns", "isOne", "isMOne", "isUnit"}
 
 
 def normal_check(op, out):
@@ -661,8 +682,8 @@ def gen_cases(rng, tier, thr, big, per, fields, have):
     for variant, op in sorted(VARIANTS.items()):
         if variant in OPTIONAL_VARIANTS and not have.get(OPTIONAL_VARIANTS[variant]):
             continue
-        if variant in RANGE_FORMS:
-            continue                      # the range helpers have a deterministic stream of their own (range_cases)
+        if variant in RANGE_FORMS or variant in ANCHOR_FORMS:
+            continue                      # deterministic streams of their own (range_cases, anchor_cases)
         secondary = variant in ALIAS_FORMS or variant in NEW_FORMS
         n = per if not secondary else max(len(fields), per // 2 if not big else per // 3)
         for i in range(n):
@@ -1314,7 +1335,7 @@ def det_trivial_cases(rng, fields):
     vi = 0
     for variant, op in sorted(VARIANTS.items()):
         sig = SIG[op]
-        if variant in NEW_FORMS or variant in RANGE_FORMS or variant.endswith(".Dzero") or variant.startswith("add.rps.Dzero") or set(sig) - set("PS"):
+        if variant in NEW_FORMS or variant in RANGE_FORMS or variant in ANCHOR_FORMS or variant.endswith(".Dzero") or variant.startswith("add.rps.Dzero") or set(sig) - set("PS"):
             continue
         if op in ("midmul", "val", "pow", "powmod"):
             continue
@@ -1481,6 +1502,34 @@ def tok_args(op, args):
     return " ".join(out)
 
 
+def anchor_cases(rng, fields):
+    """Poly1PadicDom::eval / radix over Modular<int32_t/int64_t/Integer> and NewtonInterpGeom over GFqDom, deterministic sizes"""
+    cases = []
+    for fk, p in fields:
+        if fk in ("mi32", "mi64", "mI"):
+            for n in (0, 1, 2, 3, 5, 8, 13):
+                A = [rng.below(p) for _ in range(n)]
+                if A:
+                    A[-1] = 1 + rng.below(p - 1)
+                cases.append(("padic.eval", "padic_eval", fk, p, [A]))
+                if p ** max(n, 1) < 1 << 63:
+                    cases.append(("padic.eval.u64", "padic_eval", fk, p, [list(A)]))
+                E = sum(c * p ** i for i, c in enumerate(A))
+                if E:
+                    for nn in (0, n, n + 1, n + 4):
+                        cases.append(("padic.radix", "padic_radix", fk, p, [E, nn]))
+                    cases.append(("padic.radix", "padic_radix", fk, p, [p ** n, 0]))          # a power of p: digits 0,..,0,1
+                    cases.append(("padic.radix", "padic_radix", fk, p, [p ** (n + 1) - 1, 0]))   # all digits p-1
+        if fk == "gfq":
+            for n in (1, 2, 3, 4, 5):
+                if n > p - 2:
+                    continue
+                for d in (0, 1, n, n + 1):          # black box of degree < , = number of points - 1, and one more (the interpolant differs)
+                    P = [rng.below(p) for _ in range(d)] + [1 + rng.below(p - 1)]
+                    cases.append(("interpgeom", "interpgeom", fk, p, [P, n]))
+    return cases
+
+
 def powmod_e0_cases(rng, fields):
     """powmod with exponent 0 (and 1, 2, 5 for comparison) for moduli of degree 0 (the class of fix-12: every remainder modulo a
     non-zero constant is 0), 1 and 3, through every call form of powmod, every field, deterministically"""
@@ -1514,7 +1563,9 @@ def compile_probe(name, body):
     src = os.path.join(d, name + ".C")
     vf.write_if_changed(src, '#include "modular.h"\n#include "givpoly1.h"\nusing namespace Givaro;\n'
                         'typedef Poly1Dom<Modular<int32_t>,Dense> PD;\nvoid f(const PD& D, PD::Element& r, const PD::Element& a, int32_t s) { %s }\n' % body)
-    rc, out = vf.sh([vf.CXX] + vf.BASE_FLAGS + vf.inc_flags() + ["-fsyntax-only", src], timeout=300)
+    rc, out = vf.sh([vf.CXX] + vf.BASE_FLAGS + vf.inc_flags() + ["-fsyntax-only", src], timeout=900)
+    if rc != 0 and (rc == 124 or rc < 0 or rc > 128 or "error:" not in out or "internal compiler error" in out or "Killed" in out):
+        return None, out        # time-out / killed / compiler trouble: tooling, not a statement about the call form
     return rc == 0, out
 
 
@@ -1560,43 +1611,55 @@ HANGS = [0]      # confirmed hangs seen so far in this run (all binaries)
 INCONCLUSIVE = []  # tooling time-outs and slow answers: recorded in the evidence, never a verdict
 
 
-def run_binary(binary, lines, timeout=60):
-    """run the implementation harness on the lines; a crash or a hang costs the case it died on, the rest is
-    re-submitted.  A batch that does not finish within `timeout` seconds is cut; the case it was working on is then
-    re-run ALONE with a generous time-out (120 s, 60 s once a hang has been confirmed in this run): if it answers, the
-    answer is used (the machine was slow, not the code); only if it still does not answer is it a hang.  After 2
-    confirmed hangs of this binary (3 in the run) the remaining cases are given up.
-    returns (outputs or None for a lost case, [(index, rc)], thr header)"""
+KILLED = (-9, -15, 137, 143)      # SIGKILL / SIGTERM from outside (OOM killer, another agent's kill): tooling, not the library
+
+
+def run_binary(binary, lines, timeout=300):
+    """run the implementation harness on the lines; the case a batch dies on is looked at ALONE before any verdict.
+    * does not return: the harness has a per-case CPU-time watchdog (20 s of CPU time, load independent; exit code 97 and the line
+      CPU-BUDGET-EXCEEDED).  The case is re-run alone with a budget of 120 s CPU: only if that is exceeded too is it a failing input
+      of class `hang` ("does not return").
+    * wall-clock time-out of a batch or of the single re-run (machine overloaded), or a process killed from outside (SIGKILL/SIGTERM:
+      OOM killer): tooling -> the case is `inconclusive` (listed in the evidence, counted against the floor), never a violation.
+    * crash of the process by its own fault (SIGSEGV, SIGABRT, ...): confirmed by the single re-run, then class `crash`.
+    returns (outputs or None for a lost case, [(index, verdict)], thr header); verdict in {"hang", "inconclusive:<why>", <rc>}"""
     outs = [None] * len(lines)
     crashed = []
     start = 0
     hdr = None
     hangs = 0
+
+    def clean(o):
+        return [l for l in o if not l.startswith("#") and l != "CPU-BUDGET-EXCEEDED"]
     while start < len(lines):
-        rc, o, err = vf.run_lines(binary, "".join(lines[start:]), timeout=timeout if HANGS[0] == 0 else min(timeout, 20))
+        rc, o, err = vf.run_lines(binary, "".join(lines[start:]), timeout=timeout)
         h = [l for l in o if l.startswith("#thr")]
         if h:
             hdr = h[0]
-        o = [l for l in o if not l.startswith("#")]     # lines are flushed one by one: every line in o is complete
+        o = clean(o)                                    # lines are flushed one by one: every line in o is complete
         for i, l in enumerate(o[:len(lines) - start]):
             outs[start + i] = l
         if rc == 0 and len(o) >= len(lines) - start:
             break
         k = start + len(o)
         if k < len(lines):
-            if rc == 124:
-                rc1, o1, _ = vf.run_lines(binary, lines[k], timeout=120 if HANGS[0] == 0 else 60)
-                o1 = [l for l in o1 if not l.startswith("#")]
-                if rc1 == 0 and len(o1) == 1:
-                    outs[k] = o1[0]
-                    INCONCLUSIVE.append("batch of %d cases cut after its time-out; case answered when run alone: %s" % (len(lines) - start, lines[k][:120].strip()))
-                else:
-                    crashed.append((k, "hang" if rc1 == 124 else rc1))
-                    if rc1 == 124:
-                        hangs += 1
-                        HANGS[0] += 1
+            # the case the batch died on, alone: CPU budget 120 s, wall-clock 900 s
+            rc1, o1, _ = vf.run_lines(binary, lines[k], timeout=900, args=("120" if HANGS[0] == 0 else "40",))      # shorter once a hang is confirmed
+            o1c = clean(o1)
+            if rc1 == 0 and len(o1c) == 1:
+                outs[k] = o1c[0]
+                if rc != 97:
+                    INCONCLUSIVE.append("a batch of %d cases ended with rc=%s; the case it was on answered when run alone: %s" % (len(lines) - start, rc, lines[k][:120].strip()))
+            elif rc1 == 97:
+                crashed.append((k, "hang"))             # 120 s of CPU time for one call
+                hangs += 1
+                HANGS[0] += 1
+            elif rc1 == 124 or rc1 in KILLED:
+                crashed.append((k, "inconclusive:%s" % ("wall-clock time-out of the single re-run" if rc1 == 124 else "killed from outside (rc=%s)" % rc1)))
             else:
-                crashed.append((k, rc))
+                crashed.append((k, rc1))
+        elif rc == 124 or rc in KILLED:
+            INCONCLUSIVE.append("harness ended with rc=%s after its last case" % rc)
         if hangs >= 2 or HANGS[0] >= 3:
             for j in range(k + 1, len(lines)):
                 crashed.append((j, "not-run-after-repeated-hangs"))
@@ -1788,7 +1851,7 @@ def run_stream(chk, label, bins, tag, drv, cases, kthr, sthr, stats):
             outs[j] = o2[k]
         crashed += [(rest[k], rc) for k, rc in cr2]
         for j in iso:
-            o1, cr1, _ = run_binary(b, [lines[j]], timeout=20)
+            o1, cr1, _ = run_binary(b, [lines[j]], timeout=300)
             outs[j] = o1[0]
             crashed += [(j, rc) for _, rc in cr1]
         return fk, outs, crashed, hdr
@@ -1844,14 +1907,22 @@ def run_stream(chk, label, bins, tag, drv, cases, kthr, sthr, stats):
         if str(crashed_set.get(i, "")).startswith("not-run"):
             stats["not_run"] += 1
             continue
+        if str(crashed_set.get(i, "")).startswith("inconclusive"):
+            stats["inconclusive_cases"] += 1
+            INCONCLUSIVE.append("%s %s: %s" % (label, crashed_set[i], tok_args(op, a)[:100]))
+            continue
         if i in crashed_set or iout[i] is None:
+            if iout[i] is None and i not in crashed_set:
+                stats["inconclusive_cases"] += 1      # no answer and no verdict (e.g. no binary): tooling
+                continue
             klass = "hang" if crashed_set.get(i) == "hang" else "crash"
             if op == "power_compose" and not norm(a[0]):
                 klass = "zero-polynomial"
             if op in ("add_s", "sub_s") and a[0] and not norm(a[0]):
                 klass = "unnormalised-zero-operand"
-            chk.fail_input("Poly1Dom::" + op, klass, case, "a result", "no answer (%s)" % crashed_set.get(i, "?"),
-                           "the implementation harness died or hung on this case")
+            chk.fail_input("Poly1Dom::" + op, klass, case, "a result",
+                           "does not return within 120 s (40 s after the first confirmed hang of the run) of CPU time, run alone" if klass == "hang" else "no answer (%s)" % crashed_set.get(i, "?"),
+                           "the implementation harness died or did not return on this case, also when the case was run alone")
             continue
         if i % 211 == 0:
             chk.sample({"stream": label, "variant": v, "field": FIELD_NAMES[fk], "p": p, "args": tok_args(op, a)[:300], "impl": iout[i][:300]}, limit=16)
@@ -1876,22 +1947,21 @@ def run_stream(chk, label, bins, tag, drv, cases, kthr, sthr, stats):
                                "operands in normal form, value correct, but the result vector carries leading zero coefficients")
                 continue
             stats["lazy_unnormalised"][op] = stats["lazy_unnormalised"].get(op, 0) + 1
-            if ("Poly1Dom::" + op, "unnormalised-result") in stats["known_classes"]:
-                # operands with leading zeros, result with leading zeros, and the missing setdegree of this operation is a
-                # listed, not yet repaired defect: the model follows the repaired code, no correspondence verdict
-                stats["in_known_defect_class_oracle_only"] += 1
-                continue
-        if ("Poly1Dom::" + op, klass) in stats["known_classes"]:
-            # the input lies in the class of a listed, not yet repaired defect and the output happens to satisfy the
-            # specification (e.g. remainder 0, lc(B)^k = 1): the model follows the repaired code, no correspondence verdict
-            stats["in_known_defect_class_oracle_only"] += 1
-        elif mout is not None and i in mout:
+        # (no known-finding shortcut: every repair is in /repo, the model describes the code as it is NOW and the comparison is
+        #  unconditional; a listed finding only relabels a FAILING input in vf.finish, it never switches the correspondence off)
+        sc = stats["per_stream"].setdefault(label, {"cases": 0, "oracle_compared": 0, "modelled": 0, "model_compared": 0})
+        sc["oracle_compared"] += 1
+        if op not in NO_MODEL:
+            sc["modelled"] += 1
+        if mout is not None and i in mout:
             stats["corr"] += 1
+            sc["model_compared"] += 1
             if mout[i].split() != out:
                 chk.broke("correspondence model/implementation differs [%s] %s %s p=%d kthr=%d sthr=%d args=%s: model=%s impl=%s"
                           % (label, v, fk, p, kthr, sthr, tok_args(op, a)[:1500], mout[i][:1500], iout[i][:1500]))
         elif op in NO_MODEL:
             stats["oracle_only"] += 1
+    stats["per_stream"].setdefault(label, {"cases": 0, "oracle_compared": 0, "modelled": 0, "model_compared": 0})["cases"] += len(cases)
     vf.log("C08 %s: %d cases, impl %.1fs, model %.1fs, oracle %.1fs" % (label, len(cases), t1 - t0, t2 - t1, time.time() - t2))
 
 
@@ -1915,7 +1985,13 @@ def main(tier, replay=None):
                        "powmod's exponent-0 initialisation read from givpoly1misc.inl = %s and passed to the model (parameter e0red)"
                        % {True: "mod(W,one,U)", False: "assign(W,one)", None: "UNREADABLE"}[E0RED[0]],
                        "oracle only (no Gallina model): init(P,scalar), init(P,{list}), isOne/isMOne/isUnit, the public newtoninviter, Poly1CRT accessors"]
-    # 1. proofs
+    # 1. proofs (the extraction output is git-ignored: if it is missing while Extract.vo exists, force the extraction to run again)
+    if not os.path.exists(os.path.join(vf.coq_dir(AREA), "ocaml", "model.ml")):
+        for ext in (".vo", ".vos", ".vok", ".glob"):
+            try:
+                os.remove(os.path.join(vf.coq_dir(AREA), "Extract" + ext))
+            except OSError:
+                pass
     res = vf.coq_check_props(AREA)
     chk.proof_result(res, AREA)
     # 2. executables
@@ -1929,7 +2005,7 @@ def main(tier, replay=None):
         chk.broke("cannot read the initialisation of W in Poly1Dom::powmod from givpoly1misc.inl (expected `mod(W, one, U)` or `assign(W,one)`)")
         E0RED[0] = True
     stats = {"by_stream": {}, "by_op": {}, "by_variant": {}, "by_field": {}, "by_size": {}, "corr": 0, "lazy_unnormalised": {}, "oracle_only": 0,
-             "in_known_defect_class_oracle_only": 0, "not_run": 0,
+             "in_known_defect_class_oracle_only": 0, "not_run": 0, "inconclusive_cases": 0, "per_stream": {},
              "known_classes": set((k.get("site"), k.get("klass")) for k in vf.load_known()
                                   if k.get("property") == "C08" and k.get("status") == "known")}
     # 3. call forms that must at least instantiate
@@ -1937,8 +2013,11 @@ def main(tier, replay=None):
     for nm, body, site, flag in PROBES:
         ok, out = compile_probe(nm, body)
         chk.count(("compile", nm), True)
-        have[flag] = ok
-        if not ok:
+        have[flag] = bool(ok)
+        if ok is None:
+            PROBE_INCONCLUSIVE.append((nm, "g++ -fsyntax-only did not finish normally"))
+            INCONCLUSIVE.append("compile probe %s: %s" % (nm, out[-200:]))
+        elif not ok:
             chk.fail_input(site, "does-not-compile", {"probe": body}, "the call form instantiates", out[-600:])
     small_keys = sorted(set(k for k, _ in FIELDS_SMALLTHR))
     real_keys = sorted(set(k for k, _ in FIELDS_REAL))
@@ -1973,11 +2052,8 @@ def main(tier, replay=None):
         S.append(("det-division thr2", "t2", det_division_cases(rng, 2, FIELDS_SMALLTHR), 2, 2))
         S.append(("det-division real", "real", det_division_cases(rng, kth, FIELDS_REAL), kth, sth))
         S.append(("det-trivial-operands", "t2", det_trivial_cases(rng, FIELDS_SMALLTHR), 2, 2))
-        # the class of fix-12 is generated once known_findings.json lists it (known: reported as KNOWN-FINDING; fixed: a regression is a VIOLATION)
-        if any(k.get("property") == "C08" and k.get("klass") == "exponent-0-constant-modulus" for k in vf.load_known()):
-            S.append(("powmod-exponent-0", "t2", powmod_e0_cases(rng, FIELDS_SMALLTHR), 2, 2))
-        else:
-            INCONCLUSIVE.append("powmod-exponent-0: class not generated (no entry for Poly1Dom::powmod / exponent-0-constant-modulus in known_findings.json)")
+        S.append(("anchors padic/interpgeom", "t2", anchor_cases(rng, FIELDS_SMALLTHR), 2, 2))
+        S.append(("powmod-exponent-0", "t2", powmod_e0_cases(rng, FIELDS_SMALLTHR), 2, 2))      # the class of fix-12, on every run
         S.append(("unnormalised-operands", "t2", unnormalised_cases(rng, 6 if tier == "quick" else 60, FIELDS_SMALLTHR), 2, 2))
         exv = ["mul.rpq", "karamul", "sqr", "divmod", "modin", "gcd.2", "gcd.5", "sub.rpq", "add.rpq", "lcm", "invmod", "pdivmod", "pmod"]
         if tier == "quick":
@@ -2022,6 +2098,24 @@ def main(tier, replay=None):
     chk.cov["cases_by_stream_and_field"] = stats["by_stream"]
     chk.cov["deterministic_classes"] = {"shapes": SHAPES, "pads_of_range_helpers": PADS, "quotient_kinds": Q_KINDS, "remainder_kinds": R_KINDS,
                                         "divisor_kinds": B_KINDS, "sizes_thr2": det_sizes(2), "sizes_real": det_sizes(kth)}
+    # FLOOR on what was actually compared: a stream whose oracle / model comparisons fall below 95 % of its cases because of tooling
+    # problems (time-outs, killed processes, model driver failure) is NOT a pass of that stream: it is listed here and announced
+    floor_missed = []
+    for label, sc in sorted(stats["per_stream"].items()):
+        if sc["cases"] and not chk.failing and sc["oracle_compared"] < 0.95 * sc["cases"]:
+            floor_missed.append("%s: only %d of %d cases compared with the oracle" % (label, sc["oracle_compared"], sc["cases"]))
+        if sc["modelled"] and sc["model_compared"] < 0.95 * sc["modelled"]:
+            floor_missed.append("%s: only %d of %d modelled cases compared with the extracted model" % (label, sc["model_compared"], sc["modelled"]))
+    if not replay and len(res.get("theorems", [])) < EXPECTED_THEOREMS:
+        floor_missed.append("only %d of %d theorems of Properties.v were re-checked" % (len(res.get("theorems", [])), EXPECTED_THEOREMS))
+    for nm, why in PROBE_INCONCLUSIVE:
+        floor_missed.append("compile probe %s inconclusive (%s): its call form was not driven" % (nm, why))
+    chk.cov["floor_missed"] = floor_missed
+    chk.cov["comparisons_per_stream"] = stats["per_stream"]
+    chk.cov["inconclusive_cases"] = stats["inconclusive_cases"]
+    chk.cov["theorems_rechecked"] = len(res.get("theorems", []))
+    if floor_missed or stats["inconclusive_cases"]:
+        print("INCONCLUSIVE property=C08 (tooling, not a verdict about the library): " + "; ".join(floor_missed[:6] + (["%d cases without an answer" % stats["inconclusive_cases"]] if stats["inconclusive_cases"] else [])))
     chk.cov["inconclusive"] = INCONCLUSIVE[:40]
     chk.cov["operations_without_model_oracle_only"] = sorted(NO_MODEL)
     chk.cov["distribution_by_field"] = stats["by_field"]
